@@ -76,6 +76,9 @@ func stressTableText() string {
 	for _, j := range []int{3, 1, 2} {
 		fmt.Fprintf(&b, "route add rr rr.example/rr http://r%d:80/\n", j)
 	}
+	for _, j := range []int{2, 1, 3} { // what LookupHost finds for the host: three targets behind "/"
+		fmt.Fprintf(&b, "route add tcp rr.example/ http://t%d:80/\n", j)
+	}
 	b.WriteString("route add rw rr.example/rw http://w1:80/ weight 0.25\n")
 	b.WriteString("route add rw rr.example/rw http://w2:80/\n")
 	b.WriteString("route add rw rr.example/rw http://w3:80/\n")
@@ -294,8 +297,11 @@ func childRun(raw json.RawMessage) (interface{}, error) {
 						var host, path, wantSvc string
 						if in.Kind == kindRR {
 							host = "rr.example"
-							path = []string{"/rr", "/rw", "/rz"}[rnd.Intn(3)]
+							path = []string{"/rr", "/rw", "/rz", "/"}[rnd.Intn(4)]
 							wantSvc = path[1:]
+							if path == "/" {
+								wantSvc = "tcp"
+							}
 						} else {
 							l := stressLetters[rnd.Intn(len(stressLetters))]
 							host = fmt.Sprintf("x%d.%s.example", rnd.Intn(4), l)
@@ -309,7 +315,18 @@ func childRun(raw json.RawMessage) (interface{}, error) {
 						}
 						req := newRequest(host, path)
 						tbl := route.GetTable()
-						tg := tbl.Lookup(req, "", pick, match, cache, globOff)
+						var tg *route.Target
+						switch {
+						case in.Kind == kindRR && path == "/":
+							// the TCP proxies' entry point (main.go: route.GetTable().LookupHost(host, pick))
+							tg = tbl.LookupHost(host, pick)
+						case rnd.Intn(8) == 0:
+							// a traced request (main.go passes r.Header.Get("trace")): Lookup logs the hosts it matched
+							req.Header.Set("trace", "t")
+							tg = tbl.Lookup(req, req.Header.Get("trace"), pick, match, cache, globOff)
+						default:
+							tg = tbl.Lookup(req, "", pick, match, cache, globOff)
+						}
 						if tg == nil || tg.Service != wantSvc {
 							atomic.AddInt64(&mismatches, 1)
 							got := "<nil>"
@@ -559,7 +576,7 @@ func stressGen(kind int, rndPicker bool) func(r *hx.Rand, i int) interface{} {
 			in.Rnd = 1
 		}
 		in.G = []int{8, 16, 4}[i%3]
-		per := map[int]int{kindRR: 160000, kindGlob: 24000, kindRedirect: 64000, kindMixed: 32000, kindAccess: 48000}[kind]
+		per := map[int]int{kindRR: 160000, kindGlob: 24000, kindRedirect: 64000, kindMixed: 32000, kindAccess: 32000}[kind]
 		if i >= 4 {
 			per *= 4
 		}
